@@ -22,7 +22,7 @@ RULE = ('four workloads, one clause family each.  (1) plane: joins on point pair
         'wavelength 0.4..1.6 um, -20..45 C incl. exactly 0, 650..1100 hPa, 0..100 % incl. exactly 0 and 100, wet-bulb incl. '
         'exactly 0, CO2 300..600 ppm (half of the cases exactly 420), distances 1 m..50 km, n_REF given or from unit '
         'length and frequency.  (4) dispersion identity at random (wavelength, T, P, e 0..40 hPa incl. 0, CO2).  '
-        'non-trivial = in the quantified domain; distinct = class buckets (workload class x octant/quadrant/decade/regime)')
+        'non-trivial = in the quantified domain; distinct = class buckets (workload class x octant/quadrant/decade/regime) Between judged reductions the tables a caller can fetch (refractivity constants, partial differentials, first-velocity parameters) are fetched and edited in place.')
 ASSUMPTIONS = [
     'CPython float64 arithmetic and libm (sin, cos, atan, exp, hypot) are trusted',
     'closed forms in vmon/oracles/survey.py, self-validated in every shard (published vapour-pressure check values, known '
